@@ -871,7 +871,7 @@ pub fn property() -> Property {
         subs: vec![
             Box::new(PropSub {
                 name: "C07/history",
-                quick: 6_400,
+                quick: 16_000,
                 thorough: 160_000,
                 shards_quick: 16,
                 shards_thorough: 16,
@@ -901,7 +901,7 @@ pub fn property() -> Property {
             }),
             Box::new(PropSub {
                 name: "C07/array-sizes",
-                quick: 32_000,
+                quick: 96_000,
                 thorough: 800_000,
                 shards_quick: 16,
                 shards_thorough: 16,
